@@ -144,8 +144,8 @@ package types
 //@   ensures[base]  op != nil ==> err == nil
 //@   ensures[base]  err == nil ==> fresh(op) && fresh(op.TransferAttributes)
 //@   ensures[C07,C01,C02,C11,C03,C18] ccIsIBC(packet) && id.ProtocolId == core.PROTOCOL_IBC && !ccForOrb(packet) ==> op == nil && err != nil && rootErr(err) == core.ErrNoOrbiterPacket
-//@   ensures[C01,C02,C11,C07,C03,C16,C18] err != nil && rootErr(err) == core.ErrNoOrbiterPacket ==> ccIsIBC(packet) && !ccForOrb(packet)
-//@   ensures[C01,C02,C11,C16,C18] err == nil ==> ccIsIBC(packet) && ccForOrb(packet) && prefixof(denomPrefix(ccIBC(packet).sourcePort, ccIBC(packet).sourceChannel), ccData(packet).Denom) &&
+//@   ensures[C01,C02,C11,C07,C03,C16,C18,C12] err != nil && rootErr(err) == core.ErrNoOrbiterPacket ==> ccIsIBC(packet) && !ccForOrb(packet)
+//@   ensures[C01,C02,C11,C16,C18,C12] err == nil ==> ccIsIBC(packet) && ccForOrb(packet) && prefixof(denomPrefix(ccIBC(packet).sourcePort, ccIBC(packet).sourceChannel), ccData(packet).Denom) &&
 //@                  tracePath(ccDenom(packet)) == "" && okInt(ccData(packet).Amount) &&
 //@                  op.TransferAttributes.destinationCoin.Denom == ccDenom(packet) && val(op.TransferAttributes.destinationCoin.Amount) == parseInt(ccData(packet).Amount) &&
 //@                  op.TransferAttributes.sourceCoin == op.TransferAttributes.destinationCoin
@@ -195,8 +195,8 @@ package types
 //@   ensures[base] err == nil ==> result != nil && payloadFieldsOK(result.Payload) && !isnil(result.Coin.Amount)
 //@   ensures[base] err == nil ==> fresh(result)
 //@   ensures[C07,C01,C02,C11,C03,C18] ccIsIBC(ccPacket) && !ccForOrb(ccPacket) ==> err != nil && rootErr(err) == core.ErrNoOrbiterPacket
-//@   ensures[C01,C02,C11,C07,C03,C16,C18] err != nil && rootErr(err) == core.ErrNoOrbiterPacket ==> ccIsIBC(ccPacket) && !ccForOrb(ccPacket)
-//@   ensures[C01,C02,C11,C16,C18] err == nil ==> ccIsIBC(ccPacket) && ccForOrb(ccPacket) && prefixof(denomPrefix(ccIBC(ccPacket).sourcePort, ccIBC(ccPacket).sourceChannel), ccData(ccPacket).Denom) &&
+//@   ensures[C01,C02,C11,C07,C03,C16,C18,C12] err != nil && rootErr(err) == core.ErrNoOrbiterPacket ==> ccIsIBC(ccPacket) && !ccForOrb(ccPacket)
+//@   ensures[C01,C02,C11,C16,C18,C12] err == nil ==> ccIsIBC(ccPacket) && ccForOrb(ccPacket) && prefixof(denomPrefix(ccIBC(ccPacket).sourcePort, ccIBC(ccPacket).sourceChannel), ccData(ccPacket).Denom) &&
 //@                  tracePath(ccDenom(ccPacket)) == "" && okInt(ccData(ccPacket).Amount) && result.Coin.Denom == ccDenom(ccPacket) && val(result.Coin.Amount) == parseInt(ccData(ccPacket).Amount)
 
 // The dispatcher behind the adapter (implemented by the dispatcher component).
@@ -241,3 +241,10 @@ package types
 //@ func (self AdapterController) ID() (r)
 //@   sets-post route_id = r
 //@   modifies route_id
+
+// The default module genesis (C17, C18): accepted by validation - so a chain started from it initialises -
+// with the zero passthrough limit and nothing paused.
+//@ func DefaultGenesisState() (g)
+//@   ensures[C17] g != nil && genesisOK(g)
+//@   ensures[C18] g != nil && g.AdapterGenesis != nil && g.AdapterGenesis.Params.MaxPassthroughPayloadSize == 0
+//@   ensures[C08,C09] g != nil && g.ForwarderGenesis != nil && g.ExecutorGenesis != nil && len(g.ForwarderGenesis.PausedProtocolIds) == 0 && len(g.ForwarderGenesis.PausedCrossChainIds) == 0 && len(g.ExecutorGenesis.PausedActionIds) == 0
